@@ -25,7 +25,7 @@ def gen_env_group(rng, gi):
     if rng.random() < .1: fs.append(["sleepy", rng.choice([5, 20]), rng.randrange(100)])
     return g
 
-LRN_KINDS = ["stateful-ap", "stateful-pmf", "stateful-kw", "stateful-a", "random", "epsilon", "ucb", "corral", "fixed"]
+LRN_KINDS = ["stateful-ap", "stateful-pmf", "stateful-kw", "stateful-a", "stateful-info", "random", "epsilon", "ucb", "corral", "fixed"]
 def gen_learner(rng, li):
     return {"kind": rng.choice(LRN_KINDS + ["stateful-ap", "stateful-kw"]), "tag": f"L{li}", "seed": rng.randrange(1, 20)}
 
